@@ -5,6 +5,7 @@
    current contents.  Output: "VIOL key detail" lines, "STAT {json}".  */
 #include <crypt.h>
 #include <stdio.h>
+#include <stdlib.h>
 #include <string.h>
 
 static int n_viol, n_eval;
@@ -78,9 +79,113 @@ crypt_reuse (void)
     { n_viol++; printf ("VIOL header-consumer/preferred-method -\n"); }
 }
 
+/* crypt_ra's result points INTO the caller's block: the same bytes are reachable through the result and through
+   *data, in either order, and the compiler must be told nothing else (an allocation attribute on the
+   declaration would let it forward loads across the other access).  crypt_gensalt_ra's result is the caller's
+   to free and to modify.  */
+static void
+ra_alias (const char *setting)
+{
+  /* the result pointer is deliberately never passed to another function: what the compiler may assume about it
+     then comes from the declaration of crypt_ra alone */
+  void *data = 0;
+  int size = 0;
+  char *hash = crypt_ra ("correct horse", setting, &data, &size);
+  n_eval++;
+  if (!hash || !data || size <= 0)
+    { n_viol++; printf ("VIOL header-consumer/crypt_ra-failed %s\n", setting); free (data); return; }
+  n_eval++;
+  if (!(hash >= (char *) data && hash < (char *) data + size))
+    { n_viol++; printf ("VIOL header-consumer/crypt_ra-result-outside-block size %d\n", size); free (data); return; }
+  struct crypt_data *cd = data;
+  if (hash == cd->output)       /* crypt.h: the output member is where the result is */
+    {
+      char seen = cd->output[0];
+      hash[0] = '#';
+      char after = cd->output[0];
+      n_eval++;
+      if (seen != setting[0] || after != '#')
+        { n_viol++; printf ("VIOL header-consumer/crypt_ra-store-through-result-not-seen-through-block %d %d\n", seen, after); }
+      hash[0] = seen;
+    }
+  int matched = hash[0] == setting[0] && hash[1] == setting[1];
+  memset (data, 0, (size_t) size);
+  char h0 = hash[0], h1 = hash[1];
+  n_eval++;
+  if (!matched || h0 != 0 || h1 != 0)
+    { n_viol++; printf ("VIOL header-consumer/crypt_ra-scrubbing-the-block-not-seen-through-result %d %d\n", h0, h1); }
+  /* second call on the same block: the result is inside it again */
+  char *h2 = crypt_ra ("correct horse", setting, &data, &size);
+  n_eval++;
+  if (!h2 || !(h2 >= (char *) data && h2 < (char *) data + size) || h2[0] != setting[0])
+    { n_viol++; printf ("VIOL header-consumer/crypt_ra-second-call %s\n", setting); }
+  free (data);
+}
+
+/* kept apart from the function above: what one function does with its pointers changes what the optimiser
+   concludes about the others in the same function */
+static void __attribute__ ((noinline))
+gensalt_ra_use (const char *prefix)
+{
+  char rb[16];
+  memset (rb, 7, sizeof rb);
+  char *g = crypt_gensalt_ra (prefix, 0, rb, sizeof rb);
+  n_eval++;
+  if (!g || g[0] != '$')
+    { n_viol++; printf ("VIOL header-consumer/gensalt_ra-failed -\n"); }
+  else
+    {
+      /* the caller owns the string: it may be modified and is released with free */
+      size_t n = strlen (g);
+      g[n - 1] = '!';
+      n_eval++;
+      if (g[n - 1] != '!' || strlen (g) != n)
+        { n_viol++; printf ("VIOL header-consumer/gensalt_ra-string-not-writable -\n"); }
+    }
+  free (g);
+}
+
+/* the smallest callers: one access pattern each */
+static void __attribute__ ((noinline))
+ra_store_then_read_block (const char *setting)
+{
+  void *data = 0;
+  int size = 0;
+  char *hash = crypt_ra ("pw", setting, &data, &size);
+  if (!hash || !data) { free (data); return; }
+  struct crypt_data *cd = data;
+  char seen = cd->output[0];
+  hash[0] = '#';
+  n_eval++;
+  if (hash == cd->output && (seen != setting[0] || cd->output[0] != '#'))
+    { n_viol++; printf ("VIOL header-consumer/crypt_ra-store-through-result-not-seen-through-block(minimal) %d %d\n", seen, cd->output[0]); }
+  free (data);
+}
+
+static void __attribute__ ((noinline))
+ra_scrub_then_read_result (const char *setting)
+{
+  void *data = 0;
+  int size = 0;
+  char *hash = crypt_ra ("pw", setting, &data, &size);
+  if (!hash || !data) { free (data); return; }
+  int matched = hash[0] == setting[0] && hash[1] == setting[1];
+  memset (data, 0, (size_t) size);
+  n_eval++;
+  if (!matched || hash[0] != 0 || hash[1] != 0)
+    { n_viol++; printf ("VIOL header-consumer/crypt_ra-scrubbing-the-block-not-seen-through-result(minimal) %d %d\n", hash[0], hash[1]); }
+  free (data);
+}
+
 int
 main (void)
 {
+  ra_alias ("$1$saltsalt");
+  ra_alias ("$6$saltsalt");
+  ra_store_then_read_block ("$1$saltsalt");
+  ra_scrub_then_read_result ("$5$saltsalt");
+  gensalt_ra_use ("$1$");
+  gensalt_ra_use ("$6$");
   one_buffer_unrolled ();
   one_buffer_loop ();
   crypt_reuse ();
